@@ -340,54 +340,8 @@ def run(ctx, ck):
                   'one Rotation_Matrix(rotation) shared by all objects: %s' % sorted(n_mat))
 
     # ---------------------------------------------------------------- D3
-    mainf = m.func('mininec.main')
-    mfl = ctx.flow(mainf)
-    cfg = mfl.cfg
-
-    def first_node(pred):
-        ns = [n for n in cfg.nodes if n.stmt is not None and n.id in cfg.reach and pred(n)]
-        return ns
-
-    tags = first_node(lambda n: n.kind == 'stmt' and 'geo.compute_tags()' == norm(n.stmt))
-    apply_loop = [l for l in loops_in(mainf.node) if isinstance(l, ast.For) and norm(l.iter).startswith('sorted(geo_transforms')]
-    scale_calls = calls_in(mainf.node, attr='scale')
-    ctor = [c for c in calls_in(mainf.node, name='Mininec')]
-    taper_set = first_node(lambda n: n.kind == 'stmt' and isinstance(n.stmt, ast.Assign) and
-                           norm(n.stmt.targets[0]).endswith('.segtype'))
-    ok = len(tags) == 1 and len(apply_loop) == 1 and len(scale_calls) == 1 and len(ctor) == 1 and len(taper_set) == 1
-    ck.ob('R-ORDER.main', 'anchors', ok, mainf.loc(),
-          'compute_tags %d, transform loop %d, geo.scale %d, taper %d, Mininec(...) %d'
-          % (len(tags), len(apply_loop), len(scale_calls), len(taper_set), len(ctor)))
-    if ok:
-        seq = [('compute_tags', tags[0].id), ('apply transforms', cfg.node_of(apply_loop[0])),
-               ('scale', mfl.node_id_of(scale_calls[0])), ('taper', taper_set[0].id),
-               ('Mininec()', mfl.node_id_of(ctor[0]))]
-        # "a before b": b cannot execute before a has been passed, and b (a loop body statement)
-        # cannot be followed by a again
-        for (na, ia), (nb, ib) in zip(seq, seq[1:]):
-            before = cfg.must_pass(ib, {ia}) if na in ('compute_tags',) else True
-            # b never precedes a: a not reachable from b
-            back = ia in cfg.reachable_from(ib)
-            ck.ob('R-ORDER.main', '%s<%s' % (na, nb), before and not back, mainf.loc(cfg.nodes[ib].stmt),
-                  '%s happens before %s on every path' % (na, nb))
-        key = apply_loop[0].iter.keywords
-        ok = len(key) == 1 and key[0].arg == 'key' and norm(key[0].value) == 'lambda x: x[0]'
-        ck.ob('R-ORDER.main', 'sorted-by-key', ok, mainf.loc(apply_loop[0]), 'transformations applied in sort-key order')
-        # each entry calls the container method it was recorded with, once per entry
-        lp_ = apply_loop[0]
-        eds = [e for e in prog.edges['mininec.main'] if e.kind == 'call' and
-               e.callee.qual in ('mininec.Geo_Container.rotate', 'mininec.Geo_Container.translate') and
-               lp_.lineno <= getattr(e.node, 'lineno', 0) <= lp_.end_lineno]
-        nodes_ = {id(e.node) for e in eds}
-        callees_ = {e.callee.qual for e in eds}
-        ok = len(nodes_) == 1 and callees_ == {'mininec.Geo_Container.rotate', 'mininec.Geo_Container.translate'}
-        cnt_ = None
-        if ok:
-            cn = eds[0].node
-            cnt_ = loop_reaches_on_all_paths(mfl, lp_, lambda n: n.stmt is not None and any(x is cn for x in ast.walk(n.stmt)))
-            ok = cnt_ == (1, 1) and len(cn.args) == 3
-        ck.ob('R-ORDER.main', 'transform-call', ok, mainf.loc(lp_),
-              'each recorded transformation calls its own container method once (%s, %s)' % (sorted(callees_), cnt_))
+    from ._mainorder import check_transform_order
+    check_transform_order(ctx, ck)
 
     # ---------------------------------------------------------------- D4
     from .C14 import check_f_setter
